@@ -39,14 +39,16 @@ CLAIMED = {
                      "embedded statements (compiling program text in an empty in-memory database, not running cif_api) yields keys, "
                      "uniqueness, cascades, triggers; every statement type-checks; every C bind/column index is in range; key "
                      "parameters are bound on every path to each step (dataflow); trigger messages equal the C strings compared with "
-                     "sqlite3_errmsg. Results of arbitrary API histories are not decided.",
+                     "sqlite3_errmsg. Results of arbitrary API histories are not decided. "
+                     "Every reference to loop / loop_item / item_value in every query block of the embedded statements is tied to a container (R5).",
                 note=TB + "; SQLite (python3 sqlite3 module) as parser of the embedded SQL; a light tokenizer maps ?-parameters to columns",
                 tech="static analysis of embedded SQL + bind/column site join + must-bind dataflow"),
     "C05": dict(level="proof", ref="5 C05",
                 text="Path-universal transaction typestate over the CFG of every function that reaches a transaction event or a "
                      "modifying statement: depth balanced on every exit, no failure return after a successful commit, no success "
                      "after rolling back modifications, multi-statement modifications only inside a transaction. This decides "
-                     "the structural necessary condition of failure-atomicity (all exits x all functions), not database contents.",
+                     "the structural necessary condition of failure-atomicity (all exits x all functions), not database contents. "
+                     "The typestate distinguishes COMMIT/ROLLBACK (end every level, enclosing ones included) from RELEASE/ROLLBACK TO and records what sqlite3_get_autocommit said about an enclosing transaction.",
                 note=TB + "; SQLite transaction semantics (rollback restores the begin/savepoint state; single statements are atomic)",
                 tech="typestate dataflow (status-sensitive, disjunctive) over clang CFGs + call-graph summaries"),
     "C06": dict(level="other", ref="5 C06",
@@ -153,7 +155,8 @@ CLAIMED = {
                      "site); a positive callee result that may be CIF_MEMORY_ERROR is never followed by `return CIF_OK` unrecorded; "
                      "ownership typestate restricted to paths through a failed allocation (clean-up ladders); no exit leaves a "
                      "transaction open. SQLite's/ICU's own OOM behaviour and 'the same call succeeds when repeated' are not decided. "
-                     "Also: after v->kind = K no failure path frees K's fields and returns with the kind still set.",
+                     "Also: after v->kind = K no failure path frees K's fields and returns with the kind still set. "
+                     "Further structural rules: a fresh handle reaches its release function only with every field that function reads assigned (R9); failure handlers reached from a uthash insertion that ran out of memory do not walk the table (R10, six known findings: uthash 1.9.9 cannot be unwound); `*out` is re-assigned after its referent was released (R11); a callee's CIF_MEMORY_ERROR is never re-labelled (R8); no `p = realloc(p, n)` (R7); the DESERIALIZE family releases fields before the shell (R6).",
                 note=TB + "; may-return-code summaries decide which callees can report memory failure",
                 tech="must-fact dataflow per allocation site + dropped-failure typestate + ownership typestate on OOM paths; kind/field release ordering on CFGs"),
     "C18": dict(level="other", ref="5 C18",
